@@ -1,3 +1,115 @@
-import PybtexModel.Model.Basic
+/-
+C01 — BibTeX (.bib) parsing is faithful and independent of surface syntax.
+
+Property theorems only.  The model of the reader is `Model/BibParse.lean`, the reference notions
+(abstract documents `ADoc`, the denotation `denote`, layouts and `render`, the well-formedness
+predicate `WF`) are in `Spec/Bib.lean`, the printer/parser lemmas in `Lemmas/BibRoundTrip.lean`
+and `Lemmas/BibProcess.lean`.
+
+The resulting line number is quantified existentially: no error is reported on a well-formed
+document, so it is not observable here (line numbers are the subject of C10).
+-/
+import PybtexModel.Lemmas.BibRoundTrip
+
 namespace Pybtex.Props
+open Pybtex Pybtex.Bib Pybtex.BibSpec
+
+/-! ### the example used by the non-vacuity instances: both delimiters, a
+macro # literal # month concatenation, quoted / braced / bare-number literals, an author field,
+`@string`, `@preamble`, `@comment`, junk, CR / LF / CRLF / TAB white space, case masks -/
+
+def c01Doc : ADoc := [
+  .junk "free text, = { } \" #\n".toList,
+  .strdef "JV".toList [.lit "Journal of ".toList, .lit "V".toList],
+  .preamble [.lit "\\newcommand{\\x}{y} ".toList, .macro "feb".toList],
+  .comment "ignored text".toList,
+  .entry "Article".toList "Key1".toList [
+     ("Title".toList, [.lit "A  {B} c".toList]),
+     ("journal".toList, [.macro "jv".toList, .lit " x ".toList, .macro "jan".toList]),
+     ("year".toList, [.lit "1993".toList]),
+     ("AUTHOR".toList, [.lit "Knuth, Donald E. and Leslie Lamport".toList])],
+  .entry "misc".toList "k)".toList [("note".toList, [.lit "q {\"} q".toList])]]
+
+def c01Layout : Layout := [
+  {},
+  { paren := true, afterAt := " ".toList, mask := [.up, .low, .up], beforeOpen := "\n".toList,
+    afterOpen := "\r\n".toList, nameMask := [.low], beforeEq := "\t".toList, afterEq := " ".toList,
+    pieces := [{ spelling := .quoted }, { spelling := .braced, beforeHash := " ".toList, afterHash := "\r".toList }],
+    afterValue := "\n".toList, afterClose := "\n\n".toList },
+  { mask := [.up], pieces := [{}, { mask := [.up, .keep, .up], beforeHash := " ".toList }],
+    afterClose := "\n".toList },
+  { paren := true, mask := [.keep, .up], afterClose := "\n".toList },
+  { afterOpen := " ".toList, mask := [.low, .up], afterKey := " ".toList,
+    fields := [
+      { beforeName := "\n  ".toList, mask := [.low], beforeEq := " ".toList, afterEq := " ".toList,
+        pieces := [{ spelling := .quoted }] },
+      { beforeName := "\r\n  ".toList, mask := [.up, .up],
+        pieces := [{ mask := [.up] }, { spelling := .quoted, beforeHash := " ".toList, afterHash := " ".toList },
+                   { mask := [.keep, .up], afterHash := "\t".toList }],
+        afterValue := " ".toList },
+      { beforeName := "\n".toList, pieces := [{ spelling := .bare }] },
+      { beforeName := " ".toList, afterEq := " ".toList, pieces := [{}], afterValue := "\n".toList }],
+    trailing := true, afterTrailing := "\n".toList, afterClose := "\n".toList },
+  { paren := true, fields := [{ beforeName := " ".toList, pieces := [{}] }] }]
+
+/- The example renders to (checked by evaluation; CR shown as \r):
+free text, = { } " #
+@ StRing
+(\r
+jV	= "Journal of " #\r{V}
+)
+
+@Preamble{{\newcommand{\x}{y} } #FeB}
+@cOmment(ignored text)
+@aRticle{ Key1 ,
+  title = "A  {B} c",\r
+  JOurnal=Jv # " x "#	jAn ,
+year=1993, AUTHOR= {Knuth, Donald E. and Leslie Lamport}
+,
+}
+@misc(k), note={q {"} q})
+-/
+
+theorem c01_example_wf : WF c01Doc c01Layout := by decide +kernel
+
+/-! ### stage 2: values -/
+
+/-- **Value round trip.**  Let `v` be a well-formed value under the piece layouts `ls` (literals
+brace-balanced with nesting ≤ 100, quoted spelling only without a level-0 `"`, bare spelling only
+for non-empty digit strings, macro names NAMEs defined in `m`; any case mask on macro names, any
+white space around `#`).  If the reader's macro dictionary implements the table `m` and the input
+is the rendering of `v` followed by white space `w` and a character `c` that is neither white
+space nor `#`, such that what follows the rendering does not start with a NAME character
+(`,` `}` `)` qualify, with or without white space in front), then `parseValue` succeeds, consumes
+exactly the rendering and `w`, stores the expanded pieces (literal text / macro value looked up
+case-insensitively) and changes nothing else: in particular nothing is reported. -/
+theorem C01_value_roundtrip (m : Macros) (v : Value) (ls : List PieceLayout) (s : St)
+    (w : Str) (c : Char) (r : Str)
+    (hs : s.rest = renderValue v ls ++ (w ++ c :: r))
+    (hv : valueOk m v ls = true)
+    (hm : CIDict.Inv s.macros ∧ CIDict.abs s.macros = m)
+    (hw : wsOk w = true) (hc : isWs c = false) (hc' : c ≠ '#')
+    (hn : ∀ x ∈ (w ++ c :: r).head?, isNameChar x = false) :
+    ∃ ln', parseValue s =
+      .ok () { s with rest := c :: r, ln := ln', curValue := expandPieces m v } :=
+  BibRT.parseValue_value m v ls s [] w c r (by simpa using hs) BibRT.AllWs.nil hv hm
+    (BibRT.allWs_of_wsOk hw) hc hc' hn
+
+/-- instance: `Jv # " x "#\tjAn ,` in a state whose macro table is the months plus `jv` -/
+theorem C01_value_roundtrip_nonvacuous :
+    let m : Macros := OMap.set initMacros "JV".toList "Journal of V".toList
+    let v : Value := [.macro "jv".toList, .lit " x ".toList, .macro "jan".toList]
+    let ls : List PieceLayout := [{ mask := [.up] },
+      { spelling := .quoted, beforeHash := " ".toList, afterHash := " ".toList },
+      { mask := [.keep, .up], afterHash := "\t".toList }]
+    renderValue v ls = "Jv # \" x \"#\tjAn".toList ∧ valueOk m v ls = true ∧
+    wsOk " ".toList = true ∧ isWs ',' = false ∧ ',' ≠ '#' ∧
+    (∀ x ∈ (" ".toList ++ ',' :: "\n}".toList).head?, isNameChar x = false) ∧
+    expandPieces m v = ["Journal of V".toList, " x ".toList, "January".toList] := by
+  refine ⟨by decide +kernel, by decide +kernel, by decide +kernel, by decide +kernel, by decide +kernel,
+    ?_, by decide +kernel⟩
+  intro x hx
+  cases hx
+  decide +kernel
+
 end Pybtex.Props
